@@ -193,6 +193,10 @@ pub mod verif {
         strains_vec::StrainsVec,
     };
 
+    pub use crate::model::control_point::{
+        difficulty_point_at, effect_point_at, timing_point_at,
+    };
+
     /// Per-thread event sink for trace validation. Nothing is recorded
     /// unless [`start`](trace::start) was called on the current thread.
     pub mod trace {
